@@ -179,16 +179,17 @@ func corpus(r *Rng) []Case {
 		e.wake(c5)
 		e.fnReturn(c4, wAnswer{v: wValue{kind: "groups", groups: []string{"g1"}}})
 	}))
-	// M1/M2: two upstreams of one deployment (two wrapper objects built like proxy.New builds them:
-	// same provider URL, slug and client id) with different allowed groups; the same session is
-	// presented to both and the validations / refreshes overlap: BOTH must be executed, each with
-	// its own allowed groups, and each caller gets its own answer (seeded change C16-4)
+	// M1/M2: two upstreams of one deployment (two wrapper objects built like proxy.New builds them)
+	// that use different provider slugs and allow the same groups; the same session is presented
+	// to both and the validations / refreshes overlap with EQUAL composite keys: both must be
+	// executed — they ask different authenticator endpoints — and each caller gets its own answer
+	// (a process-wide flight group merges them: seeded change C01-5)
 	for _, ep := range []string{"PValidate", "PRefresh"} {
 		ep := ep
 		out = append(out, proxyCaseN(r, 2, 0, 0, func(e *engine, mk func(int, *question) *caller) {
 			s1, s2, s3 := base, base, base
 			a := mk(1, &question{endpoint: ep, s: &s1, allowed: []string{"team-a"}, wid: 0})
-			b := mk(2, &question{endpoint: ep, s: &s2, allowed: []string{"team-b"}, wid: 1})
+			b := mk(2, &question{endpoint: ep, s: &s2, allowed: []string{"team-a"}, wid: 1})
 			a2 := mk(3, &question{endpoint: ep, s: &s3, allowed: []string{"team-a"}, wid: 0})
 			e.enter(a)
 			e.enter(b)
